@@ -57,7 +57,11 @@ fn render_items(items: &Value) -> String {
     let mut parts = Vec::new();
     for it in items.as_array().cloned().unwrap_or_default() {
         let k = s(&it, "k");
+        let raw = it.get("raw").and_then(|x| x.as_u64()).unwrap_or(0);
         match it.get("v").and_then(|x| x.as_str()) {
+            // raw string literals: r"..." (raw = 1) / r#"..."# (raw = 2)
+            Some(v) if raw == 1 => parts.push(format!("{} = r\"{}\"", k, v)),
+            Some(v) if raw == 2 => parts.push(format!("{} = r#\"{}\"#", k, v)),
             Some(v) => parts.push(format!("{} = {}", k, rust_str_lit(v))),
             None => parts.push(k),
         }
@@ -240,6 +244,11 @@ fn run_attrs(out: &mut Out, tier: &str) {
         json!({"k": "rename", "v": "skip"}),
         json!({"k": "rename", "v": "a\"b"}),
         json!({"k": "rename", "v": "kebab-key"}),
+        json!({"k": "rename", "v": "display-name", "raw": 1}),
+        json!({"k": "rename", "v": "e_mail", "raw": 2}),
+        json!({"k": "rename", "v": "user_id"}),           // the field's own identifier (a no-op only without rename_all)
+        json!({"k": "rename", "v": "created_at_utc"}),
+        json!({"k": "rename", "v": "HelloWorld"}),
         json!({"k": "skip"}),
         json!({"k": "skip_serializing_if", "v": "Option::is_none"}),
         json!({"k": "default"}),
